@@ -47,6 +47,12 @@
       with the log, successes and errors of `p`; invariant `WRel (BRp p)`, induction step `proj_step_partial`), and
       `log_order_every_partition_partial` (LogOrder for `p`, provided the exhibited one-partition run satisfies
       `splitOKs`).  `projOK` holds for `exTwo` and both of its partitions (by `decide`).
+    * Props/C02multiD.lean - towards `DeliverProj`, the worker-local half of the HIDDEN case: `resp_hidden_parts` (a
+      per-partition answer for a set that holds nothing of `p`, while no message of `p` is held: the actions are
+      `ForeignActs p`, the set is removed, closing / the retry mark of `p` / the buffered messages of `p` are unchanged,
+      the held message stays foreign; no worker invariant needed) and `projB_hidden_parts` (so `projB p` is unchanged
+      up to `sets` and `stale`).  NOT yet lifted to the system step (`proj_deliver_hidden_p`), and the VISIBLE case
+      (own part of the two passes, offsets from the base of `p`, the request-level error) is not started.
   EXACTLY ONE single-step statement is open: `DeliverProj` (Props/C02multiZ.lean).  It needs the projection of
   `BrokerProd.resp` on one partition with several partitions in the set (the two passes of handleSuccess - for which
   Props/C02bp.lean has per-partition lemmas: `outData_loop1`, `bounces_loop1`, `loop2_part`, `handle_needs` -, the
